@@ -183,15 +183,58 @@ def fde_insns(f, arch):
         out += enc_row(row, regs["fp"], regs["ra"])
     return out
 
-def build_eh_frame(fdes, arch, order=None, n_cies=1, pcrel_base=None):
+def build_eh_frame(fdes, arch, order=None, n_cies=1, pcrel_base=None, mixed=None):
     """Returns (bytes, {fde index -> offset of the FDE in the section}).
     Empty-augmentation CIEs (absolute 8-byte addresses) unless pcrel_base is given, in which case
-    "zR" CIEs with DW_EH_PE_pcrel|sdata8 are used and pcrel_base is the section's SVMA."""
+    "zR" CIEs with DW_EH_PE_pcrel|sdata8 are used and pcrel_base is the section's SVMA.
+    mixed = (section svma, rng): all CIEs come first, each with its OWN pointer encoding (absolute
+    udata8 without augmentation, zR with absptr / udata4 / pcrel|sdata4 / pcrel|sdata8), and the FDEs
+    follow interleaved, so that consecutive FDEs belong to different CIEs and point back over other
+    CIEs (what `ld -r` and hand-written assembly produce)."""
     ra_reg = ARCH_REGS[arch]["ra"]
     order = list(range(len(fdes))) if order is None else order
     out = b""
     offsets = {}
     n_cies = max(1, n_cies)
+    if mixed is not None:
+        svma, rng = mixed
+        small = all(f["start"] + f["len"] < (1 << 32) for f in fdes)
+        near = all(abs(f["start"] - svma) < (1 << 30) for f in fdes)
+        cies = []
+        for c in range(n_cies):
+            encs = [None, 0x00, 0x1c] + ([0x03] if small else []) + ([0x1b] if near else [])
+            enc = encs[(c + rng.below(len(encs))) % len(encs)] if c else rng.choice(encs)
+            if c and enc == cies[0][1] and len(encs) > 1:
+                enc = encs[(encs.index(enc) + 1) % len(encs)]
+            cie_off = len(out)
+            if enc is None:
+                body = struct.pack("<I", 0) + b"\x01" + b"\x00" + uleb(1) + sleb(1) + bytes([ra_reg])
+            else:
+                body = struct.pack("<I", 0) + b"\x01" + b"zR\x00" + uleb(1) + sleb(1) + bytes([ra_reg]) + uleb(1) + bytes([enc])
+            body = pad_to_len(body)
+            out += struct.pack("<I", len(body)) + body
+            cies.append((cie_off, enc))
+        for j, i in enumerate(order):
+            f = fdes[i]
+            cie_off, enc = cies[j % n_cies]
+            fde_off = len(out)
+            offsets[i] = fde_off
+            cie_ptr = fde_off + 4 - cie_off
+            field_addr = svma + fde_off + 8
+            if enc is None or enc == 0x00:
+                addr = struct.pack("<QQ", f["start"] & M64, f["len"] & M64)
+            elif enc == 0x03:
+                addr = struct.pack("<II", f["start"], f["len"])
+            elif enc == 0x1b:
+                addr = struct.pack("<i", f["start"] - field_addr) + struct.pack("<I", f["len"])
+            else:
+                addr = struct.pack("<q", f["start"] - field_addr) + struct.pack("<Q", f["len"] & M64)
+            aug = b"" if enc is None else uleb(0)
+            body = struct.pack("<I", cie_ptr) + addr + aug + fde_insns(f, arch)
+            body = pad_to_len(body)
+            out += struct.pack("<I", len(body)) + body
+        out += struct.pack("<I", 0)
+        return out, offsets
     groups = [[] for _ in range(n_cies)]
     for j, i in enumerate(order):
         groups[j % n_cies].append(i)
@@ -228,27 +271,39 @@ def pad_to_len(body):
         body += b"\x00"
     return body
 
-def build_debug_frame(fdes, arch, order=None, n_cies=1):
+def build_debug_frame(fdes, arch, order=None, n_cies=1, mixed=False):
     ra_reg = ARCH_REGS[arch]["ra"]
     order = list(range(len(fdes))) if order is None else order
     out = b""
     offsets = {}
     n_cies = max(1, n_cies)
+    def cie():
+        body = struct.pack("<I", 0xffffffff) + b"\x01" + b"\x00" + uleb(1) + sleb(1) + bytes([ra_reg])
+        body = pad_to_len(body)
+        return struct.pack("<I", len(body)) + body
+    def fde(i, cie_off):
+        f = fdes[i]
+        body = (struct.pack("<I", cie_off) + struct.pack("<QQ", f["start"] & M64, f["len"] & M64)
+                + fde_insns(f, arch))
+        body = pad_to_len(body)
+        return struct.pack("<I", len(body)) + body
+    if mixed:                                              # CIEs first, FDEs interleaved over them
+        cies = []
+        for c in range(n_cies):
+            cies.append(len(out)); out += cie()
+        for j, i in enumerate(order):
+            offsets[i] = len(out)
+            out += fde(i, cies[j % n_cies])
+        return out, offsets
     groups = [[] for _ in range(n_cies)]
     for j, i in enumerate(order):
         groups[j % n_cies].append(i)
     for g in groups:
         cie_off = len(out)
-        body = struct.pack("<I", 0xffffffff) + b"\x01" + b"\x00" + uleb(1) + sleb(1) + bytes([ra_reg])
-        body = pad_to_len(body)
-        out += struct.pack("<I", len(body)) + body
+        out += cie()
         for i in g:
-            f = fdes[i]
             offsets[i] = len(out)
-            body = (struct.pack("<I", cie_off) + struct.pack("<QQ", f["start"] & M64, f["len"] & M64)
-                    + fde_insns(f, arch))
-            body = pad_to_len(body)
-            out += struct.pack("<I", len(body)) + body
+            out += fde(i, cie_off)
     return out, offsets
 
 def build_eh_frame_hdr(fdes, offsets, eh_frame_svma, hdr_svma=None, enc="abs8"):
@@ -309,7 +364,7 @@ class Script:
     def module_none(self, mid, start, end, base_avma, base_svma):
         return self.add("mod %s %s %s %s %s A none B 0" % (mid, hx(start), hx(end), hx(base_avma), hx(base_svma)))
     def module_dwarf(self, mid, start, end, base_avma, base_svma, pres, fdes, rng=None,
-                     shuffle=False, n_cies=1, eh_svma=None, hdr_svma=None, hdr_enc="abs8", pcrel=False):
+                     shuffle=False, n_cies=1, eh_svma=None, hdr_svma=None, hdr_enc="abs8", pcrel=False, mixed=False):
         order = list(range(len(fdes)))
         if shuffle and rng is not None:
             rng.shuffle(order)
@@ -319,10 +374,11 @@ class Script:
         hdr_svma = base_svma + 0x300000 if hdr_svma is None else hdr_svma
         secs = []
         if pres == "debug":
-            data, offs = build_debug_frame(sec_fdes, self.arch, None, n_cies)
+            data, offs = build_debug_frame(sec_fdes, self.arch, None, n_cies, mixed)
             secs.append((".debug_frame", data, None))
         else:
-            data, offs = build_eh_frame(sec_fdes, self.arch, None, n_cies, eh_svma if pcrel else None)
+            data, offs = build_eh_frame(sec_fdes, self.arch, None, n_cies, eh_svma if pcrel else None,
+                                        (eh_svma, rng) if mixed and rng is not None else None)
             secs.append((".eh_frame", data, (eh_svma, eh_svma + len(data))))
             if pres == "hdr":
                 hdr = build_eh_frame_hdr(sec_fdes, offs, eh_svma, hdr_svma, hdr_enc)
